@@ -109,9 +109,9 @@ func loadStream(seed uint64, n int, tier string) {
 		emit(preloadCase(spec, 0x0200, payload(700)))
 		count("preload")
 	}
-	// the largest files: a payload of 65535 bytes (the most a 16-bit length can report) and of 65536 bytes
+	// the largest file of the property's range: a payload of 65535 bytes (the most a 16-bit length can report)
 	emit(loadCase("Linear64K", mk(0x0000, 65535)))
-	emit(loadCase("Linear64K", mk(0x0801, 65536)))
+	emit(loadCase("Linear64K", mk(0x0801, 65535)))
 	count("load.max")
 	count("load.max")
 	if tier == "thorough" {
